@@ -152,7 +152,7 @@ def run(tier):
         if o.get("unconfirmed"):
             continue
         sig = {"kind": d["kind"], "expected": sorted(d["expected"]), "observed": d["class"], "planted": d["planted"]}
-        for k in ("entry", "shape", "kind"):
+        for k in ("entry", "shape", "kind", "edge_ref"):
             if k in c.get("site", {}):
                 sig["site_" + k] = c["site"][k]
         if d["kind"] == "crash":
